@@ -75,6 +75,81 @@ func ruleInfoState(c *Ctx) {
 		}
 	}
 	c.Floor("INFOSTATE", "struct fields holding location information", n, 2)
+	// records that hold location information are built fresh for the client they are filed under: the value put into a table
+	// of such records is allocated on that path, not taken from a pool of retired records (which still carry the location of
+	// the client they were last used for)
+	nIns := 0
+	for _, f := range p.Fns {
+		if p.IsTestSupport(f) || !strings.HasPrefix(eng.PkgPathOf(f), eng.Mod) {
+			continue
+		}
+		for _, b := range f.Blocks {
+			for _, ins := range b.Instrs {
+				mu, ok := ins.(*ssa.MapUpdate)
+				if !ok {
+					continue
+				}
+				pt, ok := mu.Value.Type().(*types.Pointer)
+				if !ok {
+					continue
+				}
+				st, ok := pt.Elem().Underlying().(*types.Struct)
+				if !ok {
+					continue
+				}
+				holds := false
+				for i := 0; i < st.NumFields(); i++ {
+					ts := st.Field(i).Type().String()
+					if strings.HasSuffix(ts, "/ipinfo.IPInfo") {
+						holds = true
+					}
+				}
+				if !holds {
+					continue
+				}
+				nIns++
+				fresh, bad := p.AllFrom(mu.Value, deepF, func(v ssa.Value) bool { _, isA := v.(*ssa.Alloc); return isA })
+				c.CheckAt("INFOSTATE", short(f)+":location-record-is-built-fresh", mu, fresh, "a record holding location information is filed for a client without being built for it (e.g. recycled from a free list): it still carries the location of the client it was last used for ("+valsStr(p, bad)+")")
+			}
+		}
+	}
+	c.Note("location_record_insertions", nIns)
+	// whoever wraps the classification hands its answer on unchanged — also together with an error: the sentinel labels XA and
+	// XD are returned *with* an error, so "return zero value on error" loses them
+	nWrap := 0
+	for _, f := range p.Fns {
+		if p.IsTestSupport(f) || !strings.HasPrefix(eng.PkgPathOf(f), eng.Mod) || strings.HasSuffix(eng.PkgPathOf(f), "/ipinfo") || f.Parent() != nil {
+			continue
+		}
+		rs := f.Signature.Results()
+		ri := -1
+		for i := 0; i < rs.Len(); i++ {
+			if strings.HasSuffix(rs.At(i).Type().String(), "/ipinfo.IPInfo") {
+				ri = i
+			}
+		}
+		if ri < 0 {
+			continue
+		}
+		var lookups []*ssa.Call
+		for _, cl := range eng.Calls(f) {
+			if call, ok := cl.(*ssa.Call); ok && strings.HasPrefix(eng.CalleeName(&call.Call), "ipinfo.GetIPInfoFrom") {
+				lookups = append(lookups, call)
+			}
+		}
+		if len(lookups) == 0 {
+			continue
+		}
+		nWrap++
+		for i, r := range eng.Returns(f) {
+			if r.Block().Comment == "recover" || ri >= len(r.Results) {
+				continue
+			}
+			okR, bad := p.AllFrom(r.Results[ri], eng.Plain, func(v ssa.Value) bool { return inCalls(v, lookups, 0) })
+			c.CheckAt("INFOSTATE", fmt.Sprintf("%s:return#%d:hands-on-the-classification-unchanged", short(f), i), r, okR, "a wrapper of the location lookup returns something other than the lookup's own answer (e.g. the zero value on error): the XA / XD labels, which are returned together with an error, are lost and those clients are exported with an empty location ("+valsStr(p, bad)+")")
+		}
+	}
+	c.Floor("INFOSTATE", "wrappers of the location lookup", nWrap, 1)
 }
 
 // ---- taint ----
